@@ -335,4 +335,337 @@ example : (exec Quirks.code sRuntimeErr 1 { cmd := cEXEC }).2 = .exec [.frame KS
     KS.lookup (KS.getDb (exec Quirks.code sRuntimeErr 1 { cmd := cEXEC }).1.store 0) [106] = some ⟨.str [49], none⟩ :=
   ⟨rfl, by decide, by decide⟩
 
+/-! ## 5. DISCARD and a disconnect drop the queue without any effect -/
+
+/-- DISCARD inside a transaction: the dataset, the hand-over log and every other connection are
+    exactly as before; the connection is out of the transaction with an empty queue; reply OK. -/
+theorem discard_drops (q : Quirks) (s : Server) (cid : Nat) (r : Req)
+    (hname : nameOf r.cmd = "DISCARD") (hin : (s.conns cid).inTx = true) :
+    processFrame q s cid r = (setConn s cid (cleared (s.conns cid)), .one (.frame KS.ok)) ∧
+    (processFrame q s cid r).1.store = s.store ∧ (processFrame q s cid r).1.ext = s.ext ∧
+    ((processFrame q s cid r).1.conns cid).inTx = false ∧ ((processFrame q s cid r).1.conns cid).queue = [] := by
+  have hne : r.cmd.isEmpty = false := by
+    cases hc : r.cmd with
+    | nil => rw [hc] at hname; simp [nameOf] at hname
+    | cons a b => rfl
+  have hk : kindOf (nameOf r.cmd) = .discard := (kindOf_discard _).2 hname
+  have : processFrame q s cid r = (setConn s cid (cleared (s.conns cid)), .one (.frame KS.ok)) := by
+    unfold processFrame; simp [hne, hk, hin]
+  rw [this]
+  simp [cleared]
+
+/-- A disconnect at any moment: the dataset and the hand-over log are untouched and nothing of the
+    connection's transaction survives (a queue is data of the `Connection` object only). -/
+theorem disconnect_drops (q : Quirks) (s : Server) (cid : Nat) :
+    (stepEvent q s (.disconnect cid)).1.store = s.store ∧
+    (stepEvent q s (.disconnect cid)).1.ext = s.ext ∧
+    (stepEvent q s (.disconnect cid)).1.conns cid = Conn.fresh ∧
+    ∀ j, j ≠ cid → (stepEvent q s (.disconnect cid)).1.conns j = s.conns j := by
+  refine ⟨rfl, rfl, by simp [stepEvent], ?_⟩
+  intro j hj; simp [stepEvent, setConn, hj]
+
+/-- A connection whose own frames never reach the dataset is invisible, for EVERY interleaving
+    with the events of all other connections: the final dataset, hand-over log and the state of
+    every other connection, and every reply sent to the others, are exactly those of the schedule
+    with that connection's events erased. -/
+theorem quiet_connection_is_invisible (q : Quirks) (s : Server) (evs : List Event) (cid : Nat)
+    (hq : QuietRun q (s.conns cid) (ownEvents cid evs)) :
+    (run q s evs).store = (run q s (otherEvents cid evs)).store ∧
+    (run q s evs).ext = (run q s (otherEvents cid evs)).ext ∧
+    (∀ j, j ≠ cid → (run q s evs).conns j = (run q s (otherEvents cid evs)).conns j) ∧
+    repliesToOthers q cid s evs = trace q s (otherEvents cid evs) := by
+  obtain ⟨⟨h1, h2, h3⟩, h4⟩ := quiet_erase q cid evs s s (Agree.refl cid s) hq
+  exact ⟨h1, h2, h3, h4⟩
+
+/-- A transaction that ends in DISCARD has no effect whatsoever: if the own frames of connection
+    `cid` — interleaved in ANY way with any events of other connections — are MULTI, any queueable
+    commands, DISCARD, then everybody else's replies and the final dataset are as if `cid` had sent
+    nothing. -/
+theorem discarded_transaction_invisible (q : Quirks) (s : Server) (evs : List Event) (cid now : Nat) (cmds : List Cmd)
+    (hidle : (s.conns cid).inTx = false)
+    (hown : ownEvents cid evs = framesOf cid now (cMULTI :: cmds) ++ [.frame cid { cmd := cDISCARD, now := now }])
+    (hc : ∀ c ∈ cmds, queueable q c = true) :
+    (run q s evs).store = (run q s (otherEvents cid evs)).store ∧
+    (run q s evs).ext = (run q s (otherEvents cid evs)).ext ∧
+    repliesToOthers q cid s evs = trace q s (otherEvents cid evs) := by
+  have hq : QuietRun q (s.conns cid) (ownEvents cid evs) := by
+    rw [hown]
+    have hn : nameOf cMULTI = "MULTI" := by decide
+    have hd : nameOf cDISCARD = "DISCARD" := by decide
+    simp only [framesOf, List.map_cons, List.cons_append, QuietRun]
+    refine ⟨by simp [quietFrame, hn, kindOf], ?_⟩
+    have he : cMULTI.isEmpty = false := rfl
+    refine quietRun_queueing q cid now cmds _ _ ?_ hc ?_
+    · simp [connEvent, connStep, he, hn, kindOf, hidle]
+    · intro c' _
+      simp [QuietRun, quietFrame, hd, kindOf]
+  obtain ⟨h1, h2, _, h4⟩ := quiet_connection_is_invisible q s evs cid hq
+  exact ⟨h1, h2, h4⟩
+
+/-- The same when the client goes away in the middle of the transaction (socket closed after MULTI
+    and any queued commands): nothing was applied, nobody else can tell. -/
+theorem disconnected_transaction_invisible (q : Quirks) (s : Server) (evs : List Event) (cid now : Nat) (cmds : List Cmd)
+    (hidle : (s.conns cid).inTx = false)
+    (hown : ownEvents cid evs = framesOf cid now (cMULTI :: cmds) ++ [.disconnect cid])
+    (hc : ∀ c ∈ cmds, queueable q c = true) :
+    (run q s evs).store = (run q s (otherEvents cid evs)).store ∧
+    (run q s evs).ext = (run q s (otherEvents cid evs)).ext ∧
+    repliesToOthers q cid s evs = trace q s (otherEvents cid evs) := by
+  have hq : QuietRun q (s.conns cid) (ownEvents cid evs) := by
+    rw [hown]
+    have hn : nameOf cMULTI = "MULTI" := by decide
+    simp only [framesOf, List.map_cons, List.cons_append, QuietRun]
+    refine ⟨by simp [quietFrame, hn, kindOf], ?_⟩
+    have he : cMULTI.isEmpty = false := rfl
+    refine quietRun_queueing q cid now cmds _ _ ?_ hc ?_
+    · simp [connEvent, connStep, he, hn, kindOf, hidle]
+    · intro c' _
+      simp [QuietRun]
+  obtain ⟨h1, h2, _, h4⟩ := quiet_connection_is_invisible q s evs cid hq
+  exact ⟨h1, h2, h4⟩
+
+/-- connection 1 opens a transaction, queues SET k v, connection 2 writes j in between, 1 discards -/
+def demoDiscard : List Event :=
+  [.frame 1 { cmd := cMULTI }, .frame 2 { cmd := cSET [106] [49] }, .frame 1 { cmd := cSET [107] [118] },
+   .frame 2 { cmd := cGET [107] }, .frame 1 { cmd := cDISCARD }]
+
+example : ownEvents 1 demoDiscard = framesOf 1 0 (cMULTI :: [cSET [107] [118]]) ++ [.frame 1 { cmd := cDISCARD, now := 0 }] ∧
+    (∀ c ∈ [cSET [107] [118]], queueable Quirks.code c = true) := ⟨rfl, by decide⟩
+
+/-! ## 6. Transaction state is cleared by EXEC and DISCARD, and is per connection -/
+
+/-- After EXEC on a connection in a transaction — whether the queue ran, the WATCH check failed or
+    the transaction was flagged — and after DISCARD, the connection is out of the transaction, its
+    queue is empty and the flag is reset. -/
+theorem state_cleared_by_exec_and_discard (q : Quirks) (s : Server) (cid : Nat) (r : Req)
+    (hin : (s.conns cid).inTx = true) (hname : nameOf r.cmd = "EXEC" ∨ nameOf r.cmd = "DISCARD") :
+    ((processFrame q s cid r).1.conns cid).inTx = false ∧
+    ((processFrame q s cid r).1.conns cid).queue = [] ∧
+    ((processFrame q s cid r).1.conns cid).aborted = false := by
+  rw [processFrame_conn_self]
+  have hne : r.cmd.isEmpty = false := by
+    cases hc : r.cmd with
+    | nil => rw [hc] at hname; simp [nameOf] at hname
+    | cons a b => rfl
+  rcases hname with h | h
+  · have hk := (kindOf_exec _).2 h
+    unfold connStep
+    simp only [hne, hk, hin]
+    repeat' split
+    all_goals simp_all [cleared]
+  · have hk := (kindOf_discard _).2 h
+    unfold connStep
+    simp [hne, hk, hin, cleared]
+
+/-- For EVERY schedule and every connection: its state (database index, in-transaction flag, queue,
+    flag) after the schedule is a function of ITS OWN events only — neither the dataset nor any frame
+    of any other connection enters. -/
+theorem state_is_per_connection (q : Quirks) (s : Server) (evs : List Event) (cid : Nat) :
+    (run q s evs).conns cid = (ownEvents cid evs).foldl (connEvent q) (s.conns cid) :=
+  conn_state_is_fold_of_own_events q s evs cid
+
+/-- In particular frames of connection A never change B's transaction: a schedule in which B sends
+    nothing leaves B's state as it was, whatever A (and everybody else) does. -/
+theorem others_never_touch_my_transaction (q : Quirks) (s : Server) (evs : List Event) (b : Nat)
+    (h : ∀ e ∈ evs, e.conn? ≠ some b) : (run q s evs).conns b = s.conns b := by
+  rw [conn_state_is_fold_of_own_events]
+  have : ownEvents b evs = [] := by
+    unfold ownEvents
+    rw [List.filter_eq_nil_iff]
+    intro e he; simp [h e he]
+  rw [this]; rfl
+
+/-- Two servers that differ only in what OTHER connections did and in the dataset give a
+    connection the same transaction state after the same own frames (corollary used by lib/c07.py:
+    the model predicts each connection's QUEUED/EXEC behaviour from its own frames). -/
+theorem own_frames_determine_state (q : Quirks) (s s' : Server) (evs evs' : List Event) (cid : Nat)
+    (h0 : s.conns cid = s'.conns cid) (h : ownEvents cid evs = ownEvents cid evs') :
+    (run q s evs).conns cid = (run q s' evs').conns cid := by
+  rw [conn_state_is_fold_of_own_events, conn_state_is_fold_of_own_events, h0, h]
+
+example : ∀ e ∈ [Event.frame 1 { cmd := cMULTI }, .frame 1 { cmd := cSET [107] [118] }, .disconnect 3], e.conn? ≠ some 2 := by
+  intro e he; simp at he; rcases he with h | h | h <;> subst h <;> simp [Event.conn?]
+
+/-! ## 7. EXEC without MULTI, nested MULTI -/
+
+/-- EXEC (and DISCARD) outside a transaction: an error reply and the server is exactly as before. -/
+theorem exec_without_multi_refused (q : Quirks) (s : Server) (cid : Nat) (r : Req)
+    (hname : nameOf r.cmd = "EXEC" ∨ nameOf r.cmd = "DISCARD") (hin : (s.conns cid).inTx = false) :
+    processFrame q s cid r = (s, .one (.frame KS.err)) := by
+  have hne : r.cmd.isEmpty = false := by
+    cases hc : r.cmd with
+    | nil => rw [hc] at hname; simp [nameOf] at hname
+    | cons a b => rfl
+  rcases hname with h | h
+  · rw [processFrame_exec q s cid r h, exec_refused q s cid r hin]
+  · have hk := (kindOf_discard _).2 h
+    unfold processFrame; simp [hne, hk, hin]
+
+/-- MULTI inside a transaction is refused with an error and — as the code does it — NOTHING is
+    touched: the connection stays in the transaction, the queue keeps every command queued so far,
+    the flag is not set (so a later EXEC still runs the queue). -/
+theorem nested_multi_refused_keeps_queue (q : Quirks) (s : Server) (cid : Nat) (r : Req)
+    (hname : nameOf r.cmd = "MULTI") (hin : (s.conns cid).inTx = true) :
+    processFrame q s cid r = (s, .one (.frame KS.err)) := by
+  have hne : r.cmd.isEmpty = false := by
+    cases hc : r.cmd with
+    | nil => rw [hc] at hname; simp [nameOf] at hname
+    | cons a b => rfl
+  have hk := (kindOf_multi _).2 hname
+  unfold processFrame; simp [hne, hk, hin]
+
+/-- MULTI outside a transaction opens one with an empty queue. -/
+theorem multi_opens (q : Quirks) (s : Server) (cid : Nat) (r : Req)
+    (hname : nameOf r.cmd = "MULTI") (hin : (s.conns cid).inTx = false) :
+    processFrame q s cid r =
+      (setConn s cid { s.conns cid with inTx := true, queue := [], aborted := false }, .one (.frame KS.ok)) := by
+  have hne : r.cmd.isEmpty = false := by
+    cases hc : r.cmd with
+    | nil => rw [hc] at hname; simp [nameOf] at hname
+    | cons a b => rfl
+  have hk := (kindOf_multi _).2 hname
+  unfold processFrame; simp [hne, hk, hin]
+
+/-! ## 8. What holds in every reachable state -/
+
+/-- For EVERY schedule from a server whose connections are idle: no connection ever carries the
+    `aborted` flag (no code path sets it: `Gen.abortedSetSites = 0`; a command with an unknown name
+    or a wrong arity is queued like any other and fails in its slot at EXEC), an idle connection has
+    an empty queue, and a queue only ever holds commands that passed the queue test. -/
+theorem reachable_connections_ok (q : Quirks) (evs : List Event) (j : Nat) :
+    ((run q {} evs).conns j).aborted = false ∧
+    (((run q {} evs).conns j).inTx = false → ((run q {} evs).conns j).queue = []) ∧
+    ∀ c ∈ ((run q {} evs).conns j).queue, queueable q c = true := by
+  have := run_ok q {} evs (fun _ => ConnOk_fresh q) j
+  exact ⟨this.notAborted, this.idleEmpty, this.queueOk⟩
+
+/-- Hence, in every reachable state, an EXEC whose WATCH check passes runs its queue: the null
+    reply of EXEC can only come from WATCH (C08). -/
+theorem exec_nil_only_from_watch (q : Quirks) (evs : List Event) (cid : Nat) (r : Req)
+    (hin : ((run q {} evs).conns cid).inTx = true) (hw : r.watchOk = true) :
+    (exec q (run q {} evs) cid r).2 = .exec (execResult q (run q {} evs) cid r.now).2 :=
+  (exec_runs q _ cid r hin hw (reachable_connections_ok q evs cid).1).2.2
+
+/-- When the WATCH check fails nothing is executed: dataset and log untouched, state cleared, null array. -/
+theorem exec_watch_failed_runs_nothing (q : Quirks) (s : Server) (cid : Nat) (r : Req)
+    (hin : (s.conns cid).inTx = true) (hw : r.watchOk = false) :
+    exec q s cid r = (setConn s cid (cleared (s.conns cid)), .one (.frame .nullArray)) :=
+  exec_watch_failed q s cid r hin hw
+
+/-! ## 9. Blocking pops inside EXEC (DESIGN row 29) -/
+
+/-- every slot of the reply can be written on the wire -/
+def wellFormed (slots : List Out) : Bool := slots.all fun o => !isNoResponse o
+
+/-- Prescribed (as Redis does it): inside EXEC a blocking pop never blocks — EXEC's array never
+    contains the internal `NoResponse` marker, for EVERY queue. -/
+theorem exec_reply_well_formed (q : Quirks) (hq : q.blockingInExecNoResponse = false)
+    (cid now : Nat) (st : ExecSt) (cs : List Cmd) : wellFormed (execFold q true cid now st cs).2 = true := by
+  induction cs generalizing st with
+  | nil => rfl
+  | cons c cs ih =>
+    simp only [execFold_cons, wellFormed, List.all_cons, Bool.and_eq_true]
+    refine ⟨?_, ih _⟩
+    cases h : isNoResponse (runOne q true cid st now c).2
+    · rfl
+    · have := (runOne_noResponse q true cid st now c h).2
+      simp [hq] at this
+
+/-- The code as it is: the same for queues without BLPOP/BRPOP. -/
+theorem exec_reply_well_formed_partial (q : Quirks) (cid now : Nat) (st : ExecSt) (cs : List Cmd)
+    (hnb : ∀ c ∈ cs, isBlockingName (nameOf c) = false) : wellFormed (execFold q true cid now st cs).2 = true := by
+  induction cs generalizing st with
+  | nil => rfl
+  | cons c cs ih =>
+    simp only [execFold_cons, wellFormed, List.all_cons, Bool.and_eq_true]
+    refine ⟨?_, ih _ (fun x hx => hnb x (by simp [hx]))⟩
+    cases h : isNoResponse (runOne q true cid st now c).2
+    · rfl
+    · have := (runOne_noResponse q true cid st now c h).1
+      rw [hnb c (by simp)] at this
+      cases this
+
+/-- `MULTI; SET p 1; BLPOP qq 0; SET p2 2; EXEC` on an empty dataset -/
+def sBlocking : Server :=
+  setConn {} 1 { inTx := true, queue := [cSET [112] [49], cBLPOP [113, 113] [48], cSET [112, 50] [50]] }
+
+/-- Witness: the code puts `NoResponse` into slot 1 (the serializer stops there: the client receives
+    `*3 +OK` and nothing more) and registers connection id 0 — which no client owns — as a waiter
+    on `qq`; the prescribed variant answers a null array in that slot and registers nobody. -/
+theorem exec_reply_well_formed_fails_blpop :
+    (exec Quirks.code sBlocking 1 { cmd := cEXEC }).2 = .exec [.frame KS.ok, .noResponse, .frame KS.ok] ∧
+    (exec Quirks.code sBlocking 1 { cmd := cEXEC }).1.ext = [(0, cBLPOP [113, 113] [48])] ∧
+    wellFormed (execResult Quirks.code sBlocking 1 0).2 = false ∧
+    (exec Quirks.spec sBlocking 1 { cmd := cEXEC }).2 = .exec [.frame KS.ok, .frame .nullArray, .frame KS.ok] ∧
+    (exec Quirks.spec sBlocking 1 { cmd := cEXEC }).1.ext = [] :=
+  ⟨rfl, by decide, by decide, rfl, by decide⟩
+
+/-- Prescribed: a queued blocking pop acts as its non-blocking variant — when a list has an element
+    it is popped and returned with its key (both variants agree on that), otherwise a null array; it
+    never hands the connection to the blocking registry. -/
+theorem blocking_in_exec_registers_nobody (q : Quirks) (hq : q.blockingInExecNoResponse = false)
+    (cid : Nat) (st : ExecSt) (now : Nat) (c : Cmd) (hb : isBlockingName (nameOf c) = true) :
+    (runOne q true cid st now c).1.ext = st.ext := by
+  unfold isBlockingName at hb
+  simp only [Bool.or_eq_true, beq_iff_eq] at hb
+  unfold runOne
+  rcases hb with h | h
+  · simp [h, runBlocking_ext q cid st now true c hq]
+  · simp [h, runBlocking_ext q cid st now false c hq]
+
+/-- a served blocking pop inside EXEC: `RPUSH`-ed element comes back as `[key, element]` in both variants -/
+def sBlockingServed : Server :=
+  setConn {} 1 { inTx := true, queue := [cLPUSH [113] [120], cBLPOP [113] [48]] }
+
+example : (exec Quirks.code sBlockingServed 1 { cmd := cEXEC }).2 =
+      .exec [.frame (.int 1), .frame (.array [.bulk [113], .bulk [120]])] ∧
+    (exec Quirks.spec sBlockingServed 1 { cmd := cEXEC }).2 = (exec Quirks.code sBlockingServed 1 { cmd := cEXEC }).2 :=
+  ⟨rfl, rfl⟩
+
+/-! ## 10. SELECT inside EXEC (DESIGN row 28) -/
+
+/-- Prescribed: a queued SELECT with a valid index switches the database for the commands queued
+    after it and for the connection afterwards. -/
+theorem select_in_exec_selects (q : Quirks) (hq : q.selectInExecIgnored = false) (cid : Nat) (st : ExecSt) (now : Nat)
+    (c : Cmd) (n : Nat) (hname : nameOf c = "SELECT") (harg : selectArg (c.drop 1) = some n) :
+    runOne q true cid st now c = ({ st with db := n }, .frame KS.ok) := by
+  unfold runOne
+  simp only [hname, if_true, harg]
+  simp [hq]
+
+/-- Witness for the code: the same command answers OK and selects nothing. -/
+theorem select_in_exec_selects_fails :
+    nameOf (cSELECT [49]) = "SELECT" ∧ selectArg ((cSELECT [49]).drop 1) = some 1 ∧
+    (runOne Quirks.code true 1 ⟨KS.emptyStore, 0, []⟩ 0 (cSELECT [49])).1.db = 0 ∧
+    (runOne Quirks.code true 1 ⟨KS.emptyStore, 0, []⟩ 0 (cSELECT [49])).2 = .frame KS.ok ∧
+    (runOne Quirks.code false 1 ⟨KS.emptyStore, 0, []⟩ 0 (cSELECT [49])).1.db = 1 :=
+  ⟨by decide, by decide, by decide, rfl, by decide⟩
+
+/-! ## 11. The model's tables are the source's (regenerated by translator/tx_facts.py on every run) -/
+
+/-- the names handled in `process_frame` before the queue test, in source order -/
+theorem preQueue_table_matches_source : preQueueNames = Gen.preQueue := by decide
+
+/-- `should_queue_command` refuses exactly the control commands … -/
+theorem passThrough_table_matches_source : controlNames = Gen.txPassThrough := by decide
+
+/-- … all of which are handled before the queue test anyway (the test is redundant, not wrong), and
+    what is handled before the test is exactly control ∪ hand-over names. -/
+theorem preQueue_is_control_and_external :
+    (∀ n ∈ Gen.txPassThrough, n ∈ Gen.preQueue) ∧
+    (∀ n ∈ Gen.preQueue, n ∈ controlNames ∨ n ∈ externalNames) ∧
+    (∀ n ∈ controlNames ++ externalNames, n ∈ Gen.preQueue) := by decide
+
+/-- the switches of `Quirks.code` are what the source says today -/
+theorem code_quirks_match_source :
+    Quirks.code.immediate = Gen.preQueue.filter (fun n => !Gen.txPassThrough.contains n) ∧
+    Quirks.code.selectInExecIgnored = Gen.execSelectIgnored ∧
+    Quirks.code.blockingInExecNoResponse = Gen.blockingInExecUnguarded := by decide
+
+/-- single command thread: `Server::run` → `process_connections` → `process_connection` →
+    `process_frame` → `handle_exec`'s loop, with no thread spawn / channel / async hand-off (coarse
+    syntactic test); nothing sets `aborted`; `queue_command` validates nothing -/
+theorem loop_structure_matches_source :
+    Gen.execIsSynchronous = true ∧ Gen.abortedSetSites = 0 ∧ Gen.queueCommandValidates = false := by decide
+
 end Ferrous.C07
